@@ -36,6 +36,14 @@ impl ConnIdMapper {
         self.right[usize::from(id)]
     }
 
+    /// Returns the mapper that applies `self` first and then `next`.
+    pub fn compose(&self, next: &Self) -> Self {
+        Self {
+            left: self.left.iter().map(|&id| next.left(id)).collect(),
+            right: self.right.iter().map(|&id| next.right(id)).collect(),
+        }
+    }
+
     pub fn from_iter<L, R>(lmap: L, rmap: R) -> Result<Self>
     where
         L: IntoIterator<Item = u16>,
